@@ -125,6 +125,15 @@ def classify(data, community):
     return ("deliver", content)
 
 
+VIRT_PORT0 = 20000
+
+
+def virt_addr(i, item):
+    """the source address of the i-th injected datagram in the virtual tier: the item's host, a port of its own"""
+    a = addr_of(item)
+    return (a[0], VIRT_PORT0 + i) + tuple(a[2:])
+
+
 def addr_of(item):
     a = item.get("addr", ["192.0.2.9", 40001])
     return tuple(a)
@@ -137,15 +146,40 @@ def inject_virtual(case):
     got = []
     cur = {"i": None}
 
+    n_items = len(case["items"])
+
     async def callback(trap):
-        got.append((cur["i"], trap))
+        # attributed by where the datagram came from (every injected datagram has its own source port), so that a delivery
+        # which takes its time -- a listener may decode in a worker task or thread -- is not taken for the next datagram's
+        i = cur["i"]
+        try:
+            k = trap.source.port - VIRT_PORT0
+            if 0 <= k < n_items and trap.source.address == virt_addr(k, case["items"][k])[0]:
+                i = k
+        except Exception:  # noqa
+            pass
+        got.append((i, trap))
+
+    expect_deliver = [classify(datagram_of(it, case["items"]), case["community"])[0] == "deliver" for it in case["items"]]
+
+    def wait_for(i, budget):
+        """give a delivery that is due a bounded amount of REAL time (the loop's clock is virtual)"""
+        import time as _t
+
+        end = _t.time() + budget
+        while not any(j == i for j, _ in got) and _t.time() < end:
+            _t.sleep(0.005)
+            try:
+                loop.drain(1)
+            except vloop.Deadlock:
+                pass
 
     loop = vloop.VLoop()
     old = vworld._LOOP
     errors = []
     try:
         asyncio.set_event_loop(loop)
-        register_trap_callback(callback, listen_address="192.0.2.200", port=1162,
+        register_trap_callback(callback, listen_address="127.0.0.1", port=0,
                                credentials=vworld.V2C(case["community"]), loop=loop)
         if not loop.transports:
             return None, ["create_datagram_endpoint was never called"]
@@ -155,7 +189,7 @@ def inject_virtual(case):
             cur["i"] = i
             try:
                 with vsandbox.cpu_budget(8):
-                    proto.datagram_received(data, addr_of(item))
+                    proto.datagram_received(data, virt_addr(i, item))
             except vsandbox.HangDetected:
                 errors.append("HANG on datagram %d" % i)
             except Exception as e:  # noqa  (asyncio would log it and go on)
@@ -164,6 +198,8 @@ def inject_virtual(case):
                 loop.drain(3)
             except vloop.Deadlock:
                 pass
+            if expect_deliver[i] and not any(j == i for j, _ in got):
+                wait_for(i, 0.3)
         errors += ["loop: " + e for e in loop.callback_errors if "callback" in e.lower() and "Trap" in e]
     finally:
         try:
@@ -296,14 +332,14 @@ def run_case(case) -> Result:
                 if len(d) != 1:
                     return bad("datagram %d (%s) is a well-formed matching notification but was delivered %d times%s" % (
                         i, items[i]["kind"], len(d), ("; listener errors: %s" % errors[:2]) if errors else ""))
-                pairs.append((e, d[0], addr_of(items[i])))
+                pairs.append((e, d[0], virt_addr(i, items[i]) if not loopback else addr_of(items[i])))
             elif e[0] == "drop":
                 if d:
                     return bad("datagram %d (%s: foreign community / other version) was delivered to the callback" % (i, items[i]["kind"]))
             # 'either': nothing to check
         order = [i for i, _ in got]
         if order != sorted(order):
-            return bad("notifications were delivered out of arrival order: %s" % order)
+            classes.add("delivered_out_of_arrival_order")     # (the statement does not prescribe an order)
     delivered_objs = [t for _, t, _ in pairs]
     if len({id(t) for t in delivered_objs}) != len(delivered_objs):
         return bad("two deliveries handed the SAME Trap object to the callback (a later datagram overwrites the earlier one's origin)")
